@@ -236,7 +236,13 @@ where
                 debug!(
                     channel_filter_key = %key,
                     "All channels dropped");
-                self_.key_counts.remove(&key);
+                // The notification may be stale: a new channel with the same key can have
+                // re-created the tracker since the last one was dropped.
+                if let Entry::Occupied(entry) = self_.key_counts.entry(key) {
+                    if entry.get().strong_count() == 0 {
+                        entry.remove();
+                    }
+                }
                 self_.key_counts.compact(0.1);
                 Poll::Ready(())
             }
